@@ -169,6 +169,7 @@ def run(ctx):
     registered_modules_come_from_their_file(ctx, "R13-h")
     ownership_table(ctx, "R13-i")
     resolution_errors_not_overwritten(ctx, "R13-j")
+    paths_compared_by_component(ctx, "R13-k")
 
     D = r.rule("R13-d", "ParseSess::default_submod_path retries in the declaring file's own directory only for "
                         "ModError::FileNotFound with a relative owner, every other error is passed on unchanged; the module map "
@@ -541,3 +542,36 @@ def resolution_errors_not_overwritten(ctx, rid):
                             "the Result is assigned to a variable that is also assigned elsewhere and is neither `?`-ed nor matched: "
                             "only the last module visited in the loop decides whether the crate root fails", [c.loc()])
     r.floor(rid, n, 2, "resolver calls inside loops of ModResolver")
+
+
+def paths_compared_by_component(ctx, rid):
+    """R13-k: where modules are looked up is decided on path components, never on the spelling of a whole path"""
+    p, r = ctx.p, ctx.r
+    r.rule(rid, "in the functions that decide where the children of a file are looked up (Input::to_directory_ownership, "
+                "modules::ModResolver, parse::parser) no branch depends on a whole `Path` rendered as text (`Path::to_string_lossy`, "
+                "`Path::to_str`, `Path::display`): a textual test cannot tell a component from part of one — `ends_with(\"mod.rs\")` "
+                "is also true of `datamod.rs` — and the children of such a root are then looked up in the wrong directory.  "
+                "Rendering a single component (`file_stem().to_str()`) into a module name is data, not a decision, and is allowed")
+    CONV = ("to_string_lossy", "to_str", "display", "into_os_string")
+    n = 0
+    for f in p.by_crate["rustfmt_nightly"]:
+        sid = short(f.id)
+        if not ("to_directory_ownership" in sid or sid.startswith("modules::") or sid.startswith("parse::parser::")):
+            continue
+        n += 1
+        bad = []
+        for bb in range(len(f.blocks)):
+            t = f.term(bb)
+            if t[0] != "switch" or t[1][0] == "k":
+                continue
+            d = f.derived_from(t[1][1][0])
+            for c in d["calls"]:
+                if c.name.rsplit("::", 1)[-1] in CONV and ("path::Path::" in c.name or "path::PathBuf::" in c.name):
+                    bad.append(c)
+        r.instance(rid, "%s" % sid.split("::{closure")[0], "violation" if bad else "ok", "%s:%d" % (f.file, f.line),
+                   "%d branches on rendered paths" % len(bad), nontrivial=bool(bad) or "to_directory_ownership" in sid)
+        for c in bad[:1]:
+            r.violation(rid, "%s branches on the text of a whole path" % sid.split("::{closure")[0],
+                        "a decision derives from `%s`: path components are compared as text" % short(c.name).rsplit("::", 1)[-1],
+                        [c.loc()])
+    r.floor(rid, n, 10, "module-resolution functions")
